@@ -743,6 +743,84 @@ func sepCase(w1, w2, sep string) {
 	exprCase(xtext, "sep")
 }
 
+// fieldsCase: projections given by structure — each field is key, key@order (bare or quoted) or
+// key@(list) — so that the spec knows, without parsing, which ones name an order that does not exist.
+// Targets state leaking from one field into the next (an `@fixed` after a fixed-list field).
+type pfield struct {
+	key   string
+	kind  byte // 'N' no order, 'O' named order, 'F' fixed list
+	order string
+	quote bool
+	list  []string
+}
+
+func fieldsCase(fs []pfield, seps []string) {
+	var parts, desc []string
+	for _, f := range fs {
+		p := f.key
+		switch f.kind {
+		case 'O':
+			o := f.order
+			if f.quote || o == "" {
+				o = strconv.Quote(o)
+			}
+			p += "@" + o
+			desc = append(desc, "K"+hx.HexS(f.key)+":O"+hx.HexS(f.order))
+		case 'F':
+			p += "@(" + strings.Join(f.list, " ") + ")"
+			desc = append(desc, "K"+hx.HexS(f.key)+":F"+strconv.Itoa(len(f.list)))
+		default:
+			desc = append(desc, "K"+hx.HexS(f.key)+":N")
+		}
+		parts = append(parts, p)
+	}
+	text := ""
+	for i, p := range parts {
+		if i > 0 {
+			text += seps[(i-1)%len(seps)]
+		}
+		text += p
+	}
+	if mine() {
+		cid := id - 1
+		hx.Printf("case %d kind=fields text=%s fields=%s tag=fields\n", cid, hx.HexS(text), strings.Join(desc, ","))
+		guarded(cid, func(out *strings.Builder) {
+			star, _ := benchproc.NewFilter("*")
+			var pp benchproc.ProjectionParser
+			_, err := pp.Parse(text, star)
+			fmt.Fprintf(out, "sobs %d n=%d p=%s\n", cid, len(text), sOutcome(err))
+		})
+	}
+	exprCase(text, "fields")
+}
+
+var fieldKeys = []string{"a", "b", "goos", "goarch", "pkg", ".name", ".fullname", "/size", "k1"}
+var fieldOrders = []string{"alpha", "num", "first", "fixed", "fixed", "bogus", "", "Fixed", "alph", "fixed ", "nums"}
+
+func genFields(r *hx.Rand) {
+	n := 2 + r.Intn(3)
+	var fs []pfield
+	for i := 0; i < n; i++ {
+		f := pfield{key: fieldKeys[(i*2+r.Intn(2))%len(fieldKeys)], kind: 'N'}
+		switch r.Intn(4) {
+		case 0, 1:
+			f.kind = 'O'
+			f.order = hx.Pick(r, fieldOrders)
+			f.quote = r.Chance(1, 3) || strings.ContainsAny(f.order, " ")
+		case 2:
+			f.kind = 'F'
+			for j := 1 + r.Intn(3); j > 0; j-- {
+				f.list = append(f.list, hx.Pick(r, []string{"1", "2", "linux", "x/y", "alpha", "fixed"}))
+			}
+		}
+		fs = append(fs, f)
+	}
+	if r.Chance(1, 2) { // a fixed-list field first, a named order later
+		fs[0] = pfield{key: "a", kind: 'F', list: []string{"1", "2"}}
+	}
+	fieldsCase(fs, []string{hx.Pick(r, []string{",", " ", ", ", " ,"}), hx.Pick(r, []string{",", " "})})
+}
+
 func unqCase(text string) {
 	if !mine() {
 		return
@@ -890,6 +968,9 @@ func main() {
 			case "bare":
 				t, _ := hx.Field(l, "w")
 				bareCase(string(hx.UnHex(t)))
+			case "fields":
+				t, _ := hx.Field(l, "text")
+				exprCase(string(hx.UnHex(t)), "replay")
 			case "sep":
 				a, _ := hx.Field(l, "w1")
 				b, _ := hx.Field(l, "w2")
@@ -976,6 +1057,26 @@ func main() {
 	}
 	for i, n := 0, hx.N(1200, 25000); i < n; i++ {
 		sepCase("k"+unitWord(r, r.Intn(3)), "j"+unitWord(r, r.Intn(3)), hx.Pick(r, uniSeps))
+	}
+
+	// 0e. projections by structure: order names after fixed-list fields (stale parser state)
+	for _, fs := range [][]pfield{
+		{{key: "a", kind: 'F', list: []string{"1", "2"}}, {key: "b", kind: 'O', order: "fixed"}},
+		{{key: "a", kind: 'F', list: []string{"1", "2"}}, {key: "b", kind: 'O', order: "fixed", quote: true}},
+		{{key: "goos", kind: 'F', list: []string{"linux"}}, {key: ".name", kind: 'N'}, {key: "goarch", kind: 'O', order: "fixed"}, {key: "pkg", kind: 'N'}},
+		{{key: "b", kind: 'O', order: "fixed"}},
+		{{key: "a", kind: 'N'}, {key: "b", kind: 'O', order: "fixed"}},
+		{{key: "b", kind: 'O', order: "fixed"}, {key: "a", kind: 'F', list: []string{"1", "2"}}},
+		{{key: "a", kind: 'F', list: []string{"1", "2"}}, {key: "b", kind: 'O', order: "alpha"}, {key: "c", kind: 'O', order: "num", quote: true}},
+		{{key: "a", kind: 'F', list: []string{"1"}}, {key: "b", kind: 'N'}, {key: "c", kind: 'F', list: []string{"x"}}},
+		{{key: "a", kind: 'F', list: []string{"1"}}, {key: "b", kind: 'O', order: "bogus"}},
+		{{key: "a", kind: 'F', list: []string{"1"}}, {key: "b", kind: 'O', order: ""}},
+	} {
+		fieldsCase(fs, []string{","})
+		fieldsCase(fs, []string{" "})
+	}
+	for i, n := 0, hx.N(1500, 30000); i < n; i++ {
+		genFields(r)
 	}
 
 	// 1. exhaustive over the special alphabet
